@@ -3,12 +3,13 @@
    every mode size and every rank. *)
 From Coq Require Import List Arith ZArith Ring.
 From TLV Require Import Base.Shape Base.PyList Base.Tensor Base.BigSum Base.Ops Model.Base Model.Factorized
-  Proofs.FactorizedProofs.
+  Proofs.FactorizedProofs Proofs.FactorizedProofs2 Proofs.FactorizedProofs3.
 Import ListNotations.
 
 Definition is_ring {F : Type} (Op : fops F) : Prop :=
   ring_theory (f0 Op) (f1 Op) (fadd Op) (fmul Op) (fsub Op) (fopp Op) (@eq F).
 
+(* ------------------------------------------------------------------ CP *)
 (* _validate_cp_tensor accepts exactly the well-formed (weights, factors) and reports (mode sizes, common column count) *)
 Theorem C03_validate_cp_iff : forall (F : Type) (w : option (tensor F)) (fs : list (tensor F)) (shp : list nat) (R : nat),
   validate_cp w fs = Ok (shp, R) <->
@@ -27,3 +28,59 @@ Theorem C03_cp_to_tensor : forall (F : Type) (Op : fops F), is_ring Op ->
       get (f0 Op) t idx = fsumn Op R (fun r => fmul Op (wv Op w r) (prod_entries F Op fs idx r)).
 Proof. exact cp_to_tensor_spec. Qed.
 Print Assumptions C03_cp_to_tensor.
+
+(* cp_to_vec = tensor_to_vec (cp_to_tensor), and entry ravel(idx) of the vector is the CP entry at idx (every order) *)
+Theorem C03_cp_to_vec : forall (F : Type) (Op : fops F), is_ring Op ->
+  forall (w : option (tensor F)) (fs : list (tensor F)) (shp : list nat) (R : nat),
+  validate_cp w fs = Ok (shp, R) -> Forall (fun f => ndim f = 2) fs ->
+  exists t v, cp_to_tensor Op w fs None = Ok t /\ cp_to_vec Op w fs = Ok v /\ tensor_to_vec t = Ok v /\
+    shape v = [prod shp] /\
+    forall idx, inb shp idx -> get (f0 Op) v [ravel shp idx] = cp_entry F Op w fs R idx.
+Proof. exact cp_to_vec_spec. Qed.
+Print Assumptions C03_cp_to_vec.
+
+(* cp_to_unfolded(mode) = unfold(cp_to_tensor, mode) for every mode -- on the code as it is this holds for order >= 2
+   only (hypothesis 2 <= length fs; non-empty tensor); the order-1 case is the refutation below *)
+Theorem C03_cp_to_unfolded_partial : forall (F : Type) (Op : fops F), is_ring Op ->
+  forall (w : option (tensor F)) (fs : list (tensor F)) (shp : list nat) (R m : nat),
+  validate_cp w fs = Ok (shp, R) -> Forall (fun f => ndim f = 2) fs ->
+  2 <= length fs -> m < length fs -> 0 < prod shp ->
+  exists t u, cp_to_tensor Op w fs None = Ok t /\ cp_to_unfolded Op w fs m = Ok u /\ unfold (f0 Op) t m = Ok u.
+Proof. exact cp_to_unfolded_spec. Qed.
+Print Assumptions C03_cp_to_unfolded_partial.
+
+Theorem C03_cp_unfolded_order1_refuted :
+  exists (w : option (tensor Z)) fs shp R t,
+    validate_cp w fs = Ok (shp, R) /\ Forall (fun f => ndim f = 2) fs /\ 0 < prod shp /\
+    cp_to_tensor Zops w fs None = Ok t /\ cp_to_unfolded Zops w fs 0 = Err /\ unfold 0%Z t 0 <> Err.
+Proof. exact cp_unfolded_order1_refuted. Qed.
+Print Assumptions C03_cp_unfolded_order1_refuted.
+
+(* masked reconstruction: entry = mask[idx] * CP entry -- order >= 2 on the code as it is; order 1 refuted below *)
+Theorem C03_cp_to_tensor_masked_partial : forall (F : Type) (Op : fops F), is_ring Op ->
+  forall (w : option (tensor F)) (fs : list (tensor F)) (shp : list nat) (R : nat) (mask : tensor F),
+  validate_cp w fs = Ok (shp, R) -> Forall (fun f => ndim f = 2) fs -> 2 <= length fs ->
+  shape mask = shp -> wf mask ->
+  exists t, cp_to_tensor Op w fs (Some mask) = Ok t /\ shape t = shp /\
+    forall idx, inb shp idx -> get (f0 Op) t idx = fmul Op (get (f0 Op) mask idx) (cp_entry F Op w fs R idx).
+Proof. exact cp_to_tensor_masked_spec. Qed.
+Print Assumptions C03_cp_to_tensor_masked_partial.
+
+Theorem C03_cp_mask_order1_refuted :
+  exists (w : option (tensor Z)) fs shp R mask t,
+    validate_cp w fs = Ok (shp, R) /\ Forall (fun f => ndim f = 2) fs /\ shape mask = shp /\ wf mask /\
+    cp_to_tensor Zops w fs (Some mask) = Ok t /\
+    get 0%Z t [1%nat] <> (get 0%Z mask [1%nat] * cp_entry Z Zops w fs R [1%nat])%Z.
+Proof. exact cp_mask_order1_refuted. Qed.
+Print Assumptions C03_cp_mask_order1_refuted.
+
+(* ------------------------------------------------------------------ tensor train *)
+(* tt_to_tensor: entry idx = (G_1[:, i_1, :] G_2[:, i_2, :] ... G_N[:, i_N, :])[0, 0], for every number of cores, all
+   mode sizes and all (positive) ranks; induction on the number of cores *)
+Theorem C03_tt_to_tensor : forall (F : Type) (Op : fops F), is_ring Op ->
+  forall (cs : list (tensor F)) (ns : list nat),
+  cs <> [] -> tt_cores F 1 cs ns 1 -> 0 < prod ns ->
+  exists t, tt_to_tensor Op cs = Ok t /\ shape t = ns /\
+    forall idx, inb ns idx -> get (f0 Op) t idx = chain F Op cs idx 0 0.
+Proof. exact tt_to_tensor_spec. Qed.
+Print Assumptions C03_tt_to_tensor.
